@@ -29,7 +29,7 @@ INFO = {
                     "common rescaling preserves)"],
 }
 
-MODELS = ["conv", "block", "block_norm", "resnet", "unet"]
+MODELS = ["conv", "block", "block_norm", "resnet", "unet", "conv_ps", "resnet_ps"]   # _ps: signatures with pseudoscalar / pseudovector types
 OPTS = ["sgd", "momentum", "adam", "adamw"]
 
 
@@ -41,6 +41,8 @@ def cells(tier, seed):
         for o in opts:
             for count in ((0, 7) if tier == "quick" else (0, 1, 7)):
                 if tier == "quick" and m in ("resnet", "unet") and count == 7 and o in ("sgd", "momentum"):
+                    continue
+                if tier == "quick" and m.endswith("_ps") and not (o == "adamw" and count == 7):
                     continue
                 out.append({"model": m, "opt": o, "count": count})
     for m in models_:
@@ -60,6 +62,9 @@ def _model(name):
     D = 3 if name == "resnet3d" else 2
     bank = LC.bank(D, 3, [0, 1, 2], [0, 1], "B")
     in_sig, out_sig = [((0, 0), 1), ((1, 0), 1)], [((1, 0), 1)]
+    if name.endswith("_ps"):
+        in_sig, out_sig = [((0, 1), 1), ((1, 0), 1)], [((0, 1), 1), ((1, 1), 1), ((0, 0), 1)]
+        name = name[:-3]
     ik, ok = LC.sig(in_sig), LC.sig(out_sig)
     key = jax.random.PRNGKey(4)
     if name == "conv":
